@@ -599,6 +599,7 @@ hwloc_backend_synthetic_init(struct hwloc_synthetic_backend_data_s *data,
 	if (!strncmp(pos, "Tile", 4) || !strncmp(pos, "Module", 6)) {
 	  /* possible future types */
 	  type = HWLOC_OBJ_GROUP;
+	  attrs.group.depth = (unsigned) -1;
 	} else {
 	  /* FIXME: allow generic "Cache" string? would require to deal with possibly duplicate cache levels */
 	  if (verbose)
@@ -850,6 +851,9 @@ hwloc_backend_synthetic_init(struct hwloc_synthetic_backend_data_s *data,
     count++;
   }
 
+  /* the last level has no children, this also terminates level lookups in hwloc_synthetic_process_indexes() */
+  data->level[count-1].arity = 0;
+
   /* set default attributes that depend on the depth/hierarchy of levels */
   for (i=0; i<count; i++) {
     struct hwloc_synthetic_attached_s *attached;
@@ -863,7 +867,6 @@ hwloc_backend_synthetic_init(struct hwloc_synthetic_backend_data_s *data,
   hwloc_synthetic_process_indexes(data, &data->numa_attached_indexes, data->numa_attached_nr, verbose);
 
   data->string = strdup(description);
-  data->level[count-1].arity = 0;
   return 0;
 
  error:
